@@ -191,6 +191,13 @@ class Runner:
             pass
         elif fn.kind == "class":
             args = [Obj("cls:" + fn.cls)] + list(args)
+        elif fn.cls and args and isinstance(args[0], Obj) and not args[0]._name.startswith(("class:", "cls:")):
+            # the class of a stand-in receiver, as far as the run tells it: the most derived class one of whose methods
+            # was entered on it (class-level hooks and overridden helpers are looked up from there)
+            M = self.ctx.model
+            tag = args[0].__dict__.get("__cls__")
+            if tag is None or (fn.cls in M.classes and tag in M.mro(fn.cls)[1:]):
+                args[0].__dict__["__cls__"] = fn.cls
         # the module-level names the function can see: stand-ins given by the rule, repository classes, third-party modules
         # and the module's own constants (literals, exception classes, and expressions over those, in source order)
         genv = dict(EXTRA_GLOBALS)
@@ -285,6 +292,21 @@ class Runner:
             got = self._derived_attr(base, node.attr)
             if got is not NotImplemented:
                 return got
+            # a class-level attribute (a hook table, a constant) read through the instance
+            M = self.ctx.model
+            cname = base.__dict__.get("__cls__") or getattr(base, "kind", None)
+            if isinstance(cname, str) and cname in M.classes and not isinstance(getattr(node, "ctx", None), ast.Store):
+                for k in [cname] + M.mro(cname)[1:]:
+                    if node.attr in M.class_consts.get(k, {}):
+                        expr = M.class_consts[k][node.attr]
+                        v = pat.const_value(expr)
+                        if v is not None:
+                            return v
+                        try:
+                            genv = {c: ClassValue(self, c) for c in M.classes}
+                            return Ev(genv).ev(expr)
+                        except Undecided:
+                            break
             plain = node.attr
             if not base._name.startswith("class:") and any(
                     plain in ms and ms[plain].kind == "method" for ms in self.ctx.model.methods.values()):
@@ -452,6 +474,13 @@ class Runner:
         # a helper of the repository that the rule did not abstract: interpret its body too (bounded depth), so that
         # extracting a helper function does not make a rule inconclusive
         cands = [t for t in inf.targets(call, ("call",)) if t.kind in ("static", "func", "method", "class")]
+        if isinstance(f, ast.Attribute) and isinstance(recv, Obj) and recv.__dict__.get("__cls__") in self.ctx.model.classes:
+            M = self.ctx.model
+            for k in [recv.__dict__["__cls__"]] + M.mro(recv.__dict__["__cls__"])[1:]:
+                m = M.methods.get(k, {}).get(f.attr)
+                if m is not None and m.kind in ("static", "method", "class"):
+                    cands = [m]              # the override of the receiver's own class, not the declared type's
+                    break
         if len(cands) == 1 and self.depth < 6:
             t = cands[0]
             self.depth += 1
